@@ -14,8 +14,10 @@
    in BOTH reporting modes (stderr; syslog with syslog(3) interposed) under ASan, including
    rejected addresses whose message length sweeps 4000..4200 around the line-buffer size and
    addresses of 8192 and 70000 bytes, for every message that quotes its input.
-   Also outside the theorems: sock_addr_prettyprint on an AF_UNIX name without a NUL inside its
-   block (the model says Fault; probe "sock.prettyprint-unix-unterminated" of the same run). *)
+   sock_addr_prettyprint IS inside the theorems, for every address value: since the repair F14
+   (prettyprint_unix bounded by namelen) C15_sock_addr_prettyprint_no_fault holds for any family,
+   any name bytes and any name length; before it the AF_UNIX branch left the name block when the
+   name had no NUL (C15_prettyprint_unix_regression_F14). *)
 From Coq Require Import NArith List.
 From LCP Require Import Base.CheckedMem Gen.Repo_codec Gen.Repo_codec2 Util.EndianMem Util.B64 Util.B64Proofs Util.SockText Util.Sock Util.SockProofs Util.LineFiles Util.LineFilesProofs.
 Import ListNotations.
@@ -51,6 +53,46 @@ Theorem C15_sock_addr_deserialize_no_fault :
             end.
 Proof. exact sock_addr_deserialize_no_fault. Qed.
 Print Assumptions C15_sock_addr_deserialize_no_fault.
+
+(* sock_addr_prettyprint on EVERY address value (any family, any name bytes, any name length - in
+   particular on whatever the decoder above accepted): never a Fault.  ntop6 = inet_ntop(AF_INET6),
+   arbitrary.  For AF_UNIX the result is NULL when the name stops before sun_path, otherwise the
+   bytes of the sun_path region up to its first NUL or to the end of the name (until_nul). *)
+Theorem C15_sock_addr_prettyprint_no_fault :
+  forall (ntop6 : list N -> list N) sa,
+  exists r, sock_addr_prettyprint_m ntop6 sa = Ok r /\
+            (sa_family sa = af_unix ->
+             r = if Nat.ltb (length (sa_name sa)) (N.to_nat off_sun_path) then None
+                 else Some (until_nul (skipn (N.to_nat off_sun_path) (sa_name sa)))).
+Proof. exact sock_addr_prettyprint_no_fault. Qed.
+Print Assumptions C15_sock_addr_prettyprint_no_fault.
+
+(* decoding any buffer and printing what was decoded: no Fault *)
+Theorem C15_deserialize_then_prettyprint_no_fault :
+  forall (ntop6 : list N -> list N) buf, bytes_ok buf ->
+  exists r, bind (sock_addr_deserialize_m buf)
+                 (fun o => match o with
+                           | None => Ok None
+                           | Some sa => sock_addr_prettyprint_m ntop6 sa
+                           end) = Ok r.
+Proof. exact deserialize_then_prettyprint_no_fault. Qed.
+Print Assumptions C15_deserialize_then_prettyprint_no_fault.
+
+(* regression for finding F14: the 18-byte serialised address 01000000 01000000 06000000 0100
+   2f626364 (AF_UNIX, namelen 6, name "/bcd" without terminator) is accepted by the decoder; the
+   printer as it was (strdup of sun_path ignoring namelen) leaves the 6-byte name block, the
+   repaired one prints "/bcd"; likewise for a 2-byte name; a 1-byte name prints NULL *)
+Theorem C15_prettyprint_unix_regression_F14 :
+  let buf := [1; 0; 0; 0; 1; 0; 0; 0; 6; 0; 0; 0; 1; 0; 47; 98; 99; 100] in
+  let sa := mk_sa 1 1 [1; 0; 47; 98; 99; 100] in
+  sock_addr_deserialize_m buf = Ok (Some sa) /\
+  prettyprint_unix_old_m sa = Fault /\
+  sock_addr_prettyprint_x sa = Ok (Some [47; 98; 99; 100]) /\
+  prettyprint_unix_old_m (mk_sa 1 1 [1; 0]) = Fault /\
+  sock_addr_prettyprint_x (mk_sa 1 1 [1; 0]) = Ok (Some []) /\
+  sock_addr_prettyprint_x (mk_sa 1 1 [1]) = Ok None.
+Proof. exact prettyprint_unix_regression_F14. Qed.
+Print Assumptions C15_prettyprint_unix_regression_F14.
 
 (* sock_resolve on every NUL-terminated string (Unix-path, bracketed and host-name forms up to the
    point where the resolver would be called): no Fault; pton6 = inet_pton(AF_INET6), of which only
